@@ -37,6 +37,9 @@ def profiles(tier):
     P.append(("histories", Profile("hist-structure", spec3, False, hs), {"depth": d}))
     hw = A.record_weights(KN, U3, hrecs[:3], batch_pairs=[(hrecs[0], hrecs[1])])
     P.append(("histories", Profile("hist-weights", spec3, True, hw), {"depth": d}))
+    # deep churn histories over a tiny alphabet (insert / remove of four records): id reuse and stale tables need 5+ steps
+    P.append(("histories", Profile("hist-churn", spec3, False, A.churn([((1, 2), 0), ((1, 2, 3), 0), ((2, 3), 1), ((1, 2), 2)])), {"depth": 8 if tier == "quick" else 10}))
+    P.append(("histories", Profile("hist-churn-weighted", spec3, True, A.churn([((1, 2), 0), ((1, 2, 3), 0), ((2, 3), 1), ((1, 2), 2)])), {"depth": 6 if tier == "quick" else 8}))
     if tier == "thorough":
         recs3 = [((1, 2), 0), ((1, 2, 3), 0), ((1, 2, 3), 2), ((2, 3), 1), ((3,), 2), ((1, 2), 2)]
         st3 = A.record_structure(KN, U3, recs3, absent_record=((1, 99), 0), invalid_extras=bad_times, batches=False)
